@@ -1,4 +1,5 @@
-"""In-memory self-test: seeded faults must be reported by the named rule, benign variants must stay silent.
+"""In-memory self-test: seeded faults must be reported by the named rule, benign variants must stay silent, and the robustness
+battery (pvx/variants.py: 14 behaviour-preserving transformations of each anchor module) must leave the verdict unchanged.
 
 A rule module may define
   SELFTEST = {"faults": [ {"name", "file", "old", "new", "rule", "construct"(optional substring)} ],
@@ -6,10 +7,13 @@ A rule module may define
 `old` must occur exactly once in `file`; if it does not (the anchored text was edited), the variant is
 recorded as skipped -- a self-test never turns an edit of /repo into an alarm.
 """
+import json
 import multiprocessing as mp
+import pathlib
 
 from .core import report
 from .core.source import Repo
+from . import variants
 
 _G = {}
 
@@ -28,8 +32,59 @@ def _apply(src, old, new, occurrence=None):
     return src[:pos] + new + src[pos + len(old):]
 
 
+def anchor_files(prop, st):
+    """modules the robustness battery rewrites for a property: its anchor files (properties.jsonl) and every file its fault catalogue
+    edits (the rules read those too)"""
+    files = []
+    try:
+        f = pathlib.Path(__file__).resolve().parents[1] / "properties.jsonl"
+        for line in f.read_text().splitlines():
+            if line.strip():
+                d = json.loads(line)
+                if d.get("id") == prop:
+                    files += [x for x in d.get("anchors", {}).get("files", []) if x.startswith("pyrex/") and x.endswith(".py")]
+    except Exception:
+        pass
+    for v in (st or {}).get("faults", []):
+        for e in (v.get("edits") or [v]):
+            if e.get("file", "").startswith("pyrex/"):
+                files.append(e["file"])
+    out = []
+    for x in files:
+        if x not in out:
+            out.append(x)
+    return out
+
+
+def _variant(args):
+    _, v = args
+    mod, repo, prop, base_keys, base_unknown = _G["mod"], _G["repo"], _G["prop"], _G["keys"], _G["unk"]
+    src = repo.sources_by_path.get(v["file"])
+    if src is None:
+        return ("variant", v["name"], "skipped", "file not present")
+    try:
+        new_src = variants.transform(src, v["kind"])
+    except Exception as e:
+        return ("variant", v["name"], "skipped", f"transformation not applicable ({type(e).__name__})")
+    if new_src is None:
+        return ("variant", v["name"], "skipped", "transformation not applicable")
+    try:
+        r2 = Repo(repo.root, overrides={v["file"]: new_src}, base=repo)
+        ctx = report.Ctx(r2, prop, "quick")
+        mod.run(ctx)
+    except Exception as e:
+        return ("variant", v["name"], "fail", f"analysis raised {type(e).__name__}: {e}")
+    new = [o for o in ctx.violations() if o.key not in base_keys]
+    unk = {o.key for o in ctx.obs if o.status == report.UNKNOWN and o.required} - base_unknown
+    if new or unk:
+        return ("variant", v["name"], "fail", "behaviour-preserving variant flagged: " + "; ".join([o.key for o in new[:3]] + sorted(unk)[:3]))
+    return ("variant", v["name"], "ok", f"{sum(len(q) for q in r2.restored.values())} functions recognised as equivalent to their reference")
+
+
 def _one(args):
     kind, v = args
+    if kind == "variant":
+        return _variant(args)
     mod, repo, prop, base_keys, base_unknown = _G["mod"], _G["repo"], _G["prop"], _G["keys"], _G["unk"]
     edits = v.get("edits") or [{"file": v["file"], "old": v["old"], "new": v["new"], "occurrence": v.get("occurrence")}]
     overrides = {}
@@ -71,6 +126,7 @@ def run_selftest(mod, repo, prop, ctx):
     _G.update(mod=mod, repo=repo, prop=prop, keys=set(ctx.finding_keys()),
               unk={o.key for o in ctx.obs if o.status == report.UNKNOWN and o.required})
     jobs = [("fault", v) for v in st.get("faults", [])] + [("benign", v) for v in st.get("benign", [])]
+    jobs += [("variant", {"name": f"{k}:{f}", "kind": k, "file": f}) for f in anchor_files(prop, st) for k in variants.KINDS]
     if len(jobs) > 2:
         with mp.get_context("fork").Pool(min(16, len(jobs))) as pool:
             res = pool.map(_one, jobs)
@@ -79,6 +135,9 @@ def run_selftest(mod, repo, prop, ctx):
     out = {"faults": sum(1 for k, *_ in res if k == "fault"), "benign": sum(1 for k, *_ in res if k == "benign"),
            "detected": sum(1 for k, n, s, d in res if k == "fault" and s == "ok"),
            "silent": sum(1 for k, n, s, d in res if k == "benign" and s == "ok"),
+           "robustness_variants": sum(1 for k, *_ in res if k == "variant"),
+           "robustness_silent": sum(1 for k, n, s, d in res if k == "variant" and s == "ok"),
+           "robustness_kinds": list(variants.KINDS),
            "skipped": [n for k, n, s, d in res if s == "skipped"],
            "failures": [f"{k} '{n}': {d}" for k, n, s, d in res if s == "fail"],
            "results": [{"kind": k, "name": n, "status": s, "detail": d} for k, n, s, d in res]}
